@@ -68,6 +68,8 @@ type Driver struct {
 	TickFn func(d *Driver) bool
 	Log    []Recv
 	names  []string
+	// Hold names ports whose incoming messages Drain leaves in place (back-pressure).
+	Hold map[string]bool
 }
 
 // Tick implements modeling.Ticker.
@@ -93,6 +95,9 @@ func (d *Driver) Cycle() uint64 { return d.freq.Cycle(d.sim.Engine.CurrentTime()
 func (d *Driver) Drain() bool {
 	got := false
 	for _, n := range d.names {
+		if d.Hold[n] {
+			continue
+		}
 		p := d.GetPortByName(n)
 		for {
 			m := p.RetrieveIncoming()
